@@ -69,6 +69,7 @@ impl<'lifespan> ChemicalCompositionMap<'lifespan> {
 
     #[inline]
     pub fn iter_mut(&mut self) -> IterMut<ElementSpecification<'lifespan>, i32> {
+        self.mass_cache = None;
         (self.composition).iter_mut()
     }
 
@@ -164,6 +165,7 @@ impl<'lifespan, 'transient, 'outer: 'transient> ChemicalCompositionMap<'lifespan
 
     #[inline]
     pub(crate) fn _mul_by(&mut self, scaler: i32) {
+        self.mass_cache = None;
         self.iter_mut().for_each(|(_, v)| *v *= scaler);
     }
 
